@@ -226,6 +226,21 @@ func runC10(c *explore.Ctx) {
 			e := e
 			cases = append(cases, cs{"EXTREME " + e.Name, func() []model.Doc { return e.Batch }, 1025})
 		}
+		// more than 65 536 documents: a sparse term whose single chunk spans the whole segment
+		// (chunk size above 2^16), a dense term, a term in every document; adaptive and legacy modes
+		for _, p := range []int{1, 0} {
+			for _, m := range []uint32{1025, 1024} {
+				p, m := p, m
+				cases = append(cases, cs{fmt.Sprintf("HUGE n=70000 p=%d mode=%d", p, m), func() []model.Doc {
+					b := gen.Large(70000, p, 1)
+					for _, j := range []int{0, 3, 1024, 65535, 65536, 65537, 69000, 69999} {
+						b[j] = append(gen.Doc{gen.IDField("h", j)}, b[j]...)
+						b[j] = append(b[j], model.Field{N: "b", Len: 1, DV: true, St: true, Val: []byte(fmt.Sprintf("stored-%d", j)), Terms: []model.Term{{T: fmt.Sprintf("t%d", j%3), Freq: 2, Locs: []model.Loc{{P: 1, S: j, E: j + 1}}}}})
+					}
+					return b
+				}, m})
+			}
+		}
 		for _, cse := range cases {
 			my := idx
 			idx++
